@@ -97,7 +97,7 @@ for d in sorted(glob.glob('/verif/seeded/*/meta.json')):
     m.setdefault('ran', "tools/confirm_seeds.py: git worktree of /repo HEAD, git apply patch.diff, demo.py with/without the change, pytest phyclone/tests with the change, ./check <ID> --tier quick with PCV_REPO=<worktree>")
     json.dump(m, open(d, 'w'), indent=1)
     det = [k for k, v in m['checks'].items() if v['detected']]
-    rnd = {"e": 5, "d": 4, "c": 3, "b": 2}.get(name.split('-')[0][-1], 1)
+    rnd = {"f": 6, "e": 5, "d": 4, "c": 3, "b": 2}.get(name.split('-')[0][-1], 1)
     rows.append("| %s | %d | %s | %s | %s | %s/%s | %s |" % (name, rnd, m['property'], m.get('needs', ''), ", ".join(det) or "-", m['demo']['exit_with_change'], m['demo']['exit_without_change'], m['tests']['passed']))
 table = "| seeded change | round | property | what it does / what it needs to manifest | caught by (quick tier) | demo exit with/without | tests passed |\n|---|---|---|---|---|---|---|\n" + "\n".join(rows) + "\n"
 s = open('/verif/DESIGN.md').read()
